@@ -81,8 +81,8 @@ Definition parse_link (h : str) : plink :=
 
 Definition eff_limit (n : Z) : Z := if (n <=? 0)%Z then defaultMaxMetadataBytes else n.
 
-(* what io.LimitReader lets through of a body of [total] bytes *)
-Definition max_read (limit : Z) (total : N) : N := N.min (Z.to_N (eff_limit limit)) total.
+(* io.LimitReader: the prefix of the body that a reader behind the limit can ever obtain *)
+Definition seen (limit : Z) (body : str) : str := firstn (Z.to_nat (eff_limit limit)) body.
 
 (* limitSize: true = rejected *)
 Definition limit_size_rejects (limit : Z) (size : Z) : bool := (eff_limit limit <? size)%Z.
@@ -152,6 +152,14 @@ Definition mk_request (c : cfg) (u : url) (last : str) : url :=
   let q := if (0 <? c_n c)%Z then qset k_n (VN (Z.to_N (c_n c))) q else q in
   let q := if sends_last (c_kind c) && negb (is_empty last) then qset k_last (VS last) q else q in
   mkUrl (u_path u) q.
+
+(* the code before fix 635f618: when n or last had to be set, the query went through
+   url.Values (Query() / Encode()), which drops every pair url.ParseQuery rejects;
+   [parses] says which pairs survive *)
+Definition mk_request_prefix (parses : str * qval -> bool) (c : cfg) (u : url) (last : str) : url :=
+  if (0 <? c_n c)%Z || (sends_last (c_kind c) && negb (is_empty last))
+  then mk_request c (mkUrl (u_path u) (filter parses (u_query u))) last
+  else u.
 
 Definition body_fits (c : cfg) (rs : response) : bool :=
   rs_json_ok rs && (Z.of_N (rs_doc_len rs) <=? eff_limit (c_limit c))%Z.
@@ -276,18 +284,44 @@ Definition reg_filters (rk : kind) (rq : url) (d : decision) : bool :=
   (d_filter d || is_filter_applied (d_fhdr d) filterTypeArtifactType
               || is_filter_applied (d_fann d) filterTypeArtifactType).
 
+(* The continuation a registry writes into its next links.  CLast: the documented `last`
+   parameter (the key clients use for the start value).  CToken key salt: an opaque cursor
+   under another key, value salt ++ <name of the last item>; such a link carries no `last`. *)
+Inductive cursor := CLast | CToken (key salt : str).
+
+Definition ckey (cu : cursor) : str := match cu with CLast => k_last | CToken k _ => k end.
+Definition cenc (cu : cursor) (x : str) : str := match cu with CLast => x | CToken _ s => s ++ x end.
+Definition strip (p s : str) : str :=
+  if str_eqb (firstn (length p) s) p then skipn (length p) s else s.
+
+(* where a request continues: the registry's own cursor if present, else the client's `last` *)
+Definition cursor_read (cu : cursor) (q : query) : str :=
+  match cu with
+  | CLast => qget_s k_last q
+  | CToken k s => match qget k q with Some (VS v) => strip s v | _ => qget_s k_last q end
+  end.
+
+(* the URL a next link stands for: path p, the cursor after item x, the registry's extra
+   parameters, then the other parameters of the request *)
+Definition link_url (cu : cursor) (p : str) (d : decision) (rq : url) (x : str) : url :=
+  mkUrl p ((ckey cu, VS (cenc cu x)) :: d_extra d ++ qdel (ckey cu) (qdel k_last (u_query rq))).
+
 (* page, more?, query of the next link *)
-Definition reg_page (rk : kind) (L : list item) (cap : nat) (rq : url) (d : decision)
+Definition reg_page (rk : kind) (cu : cursor) (vis : item -> bool) (L : list item) (cap : nat) (rq : url) (d : decision)
   : list item * bool * query :=
-  let rest := after (qget_s k_last (u_query rq)) L in
+  let rest := after (cursor_read cu (u_query rq)) L in
   let m := page_len cap rq d in
   let page := firstn m rest in
   let more := (m <? length rest)%nat in
-  let items := if reg_filters rk rq d then filter_referrers page (qget_s k_at (u_query rq)) else page in
-  (items, more, (k_last, VS (last_name page)) :: d_extra d ++ qdel k_last (u_query rq)).
+  let shown := filter vis page in   (* entries the registry does not show (e.g. no permission) are passed over *)
+  let items := if reg_filters rk rq d then filter_referrers shown (qget_s k_at (u_query rq)) else shown in
+  (items, more, u_query (link_url cu [] d rq (last_name page))).
 
 Section Registry.
   Variable rk : kind.       (* which endpoint: only the referrers endpoint filters *)
+  Variable cu : cursor.
+  Variable npath : nat -> str -> str.   (* path of the next link for request i under path p *)
+  Variable vis : item -> bool.          (* which entries the registry shows at all *)
   Variable L : list item.
   Variable cap : nat.
   Variable ds : nat -> decision.
@@ -298,21 +332,33 @@ Section Registry.
 
   Definition reg_serve (i : nat) (rq : url) : response :=
     let d := ds i in
-    let '(items, more, lq) := reg_page rk L cap rq d in
+    let '(items, more, lq) := reg_page rk cu vis L cap rq d in
     mkResp 200 false mediaTypeImageIndex true (d_doc_len d) (d_doc_len d + d_pad d) items
-           (if more then [c_lt :: render i rq (mkUrl (u_path rq) lq) ++ c_gt :: trailer i] else [])
+           (if more then [c_lt :: render i rq (mkUrl (npath i (u_path rq)) lq) ++ c_gt :: trailer i] else [])
            (d_fhdr d) (d_fann d).
 End Registry.
 
 (* ---------- referrers tag schema (referrersByTagSchema + referrersFromIndex) ---------- *)
 
+(* applyReferrerChanges(referrers, nil) as used on read: entries that are empty descriptors
+   and entries whose descriptor (media type, digest, size -- here: the name) occurred before
+   are skipped *)
+Fixpoint clean_index_aux (seen : list str) (items : list item) : list item :=
+  match items with
+  | [] => []
+  | it :: r =>
+    if is_empty (fst it) || existsb (str_eqb (fst it)) seen then clean_index_aux seen r
+    else it :: clean_index_aux (fst it :: seen) r
+  end.
+Definition clean_index (items : list item) : list item := clean_index_aux [] items.
+
 (* found: the referrers tag exists; size: the size of the index (Content-Length);
-   items: what the whole index lists *)
+   items: the manifests of the whole index as listed (possibly with repeated or empty entries) *)
 Definition tag_schema (limit : Z) (found : bool) (size : Z) (items : list item) (at_ : str)
            (cb_fail : nat -> bool) : list (list item) * outcome :=
   if negb found then ([], Done)
   else if limit_size_rejects limit size then ([], ErrSize)
-  else match filter_referrers items at_ with
+  else match filter_referrers (clean_index items) at_ with
        | [] => ([], Done)
        | f => if cb_fail 0%nat then ([f], ErrCallback) else ([f], Done)
        end.
